@@ -8,6 +8,8 @@ import (
 	"os"
 	"path/filepath"
 	"regexp"
+	"sort"
+	"strings"
 	"sync"
 	"time"
 
@@ -201,6 +203,10 @@ type JErr struct {
 	Q       string `json:"q"`
 	Subject string `json:"subject"`
 	Text    string `json:"text"`
+	// Loose: the text did not have the wording this harness knows; P and Q are the first two
+	// plugin names found in it (in order of appearance), Subject is empty and the driver looks
+	// for the item's key in Text. Keeps a reworded error message from raising an alarm.
+	Loose bool `json:"loose"`
 }
 
 type CaseObs struct {
@@ -221,7 +227,7 @@ var (
 	reSelf     = regexp.MustCompile(`^plugin "([^"]*)" asked update of "([^"]*)" during creation$`)
 )
 
-func classify(err error) JErr {
+func (g *Rig) classify(err error) JErr {
 	if err == nil {
 		return JErr{Kind: "none"}
 	}
@@ -231,6 +237,40 @@ func classify(err error) JErr {
 	}
 	if m := reSelf.FindStringSubmatch(t); m != nil {
 		return JErr{Kind: "selfupdate", P: m[1], Subject: m[2], Text: t}
+	}
+	// unknown wording: which plugins does the text name, and in which order?
+	type occ struct {
+		at   int
+		name string
+	}
+	var occs []occ
+	seen := map[string]bool{}
+	for _, n := range g.Names {
+		if seen[n] {
+			continue
+		}
+		seen[n] = true
+		for from := 0; ; {
+			i := strings.Index(t[from:], n)
+			if i < 0 {
+				break
+			}
+			occs = append(occs, occ{from + i, n})
+			from += i + len(n)
+		}
+	}
+	sort.Slice(occs, func(i, j int) bool { return occs[i].at < occs[j].at })
+	switch {
+	case len(occs) >= 2:
+		return JErr{Kind: "conflict", P: occs[0].name, Q: occs[1].name, Text: t, Loose: true}
+	case len(occs) == 1:
+		// one plugin named: the only such error of the collector is the update of the
+		// container being created
+		for _, c := range []string{"ctr0", "ctrA", "ctrB"} {
+			if strings.Contains(t, c) {
+				return JErr{Kind: "selfupdate", P: occs[0].name, Subject: c, Text: t, Loose: true}
+			}
+		}
 	}
 	return JErr{Kind: "other", Text: t}
 }
@@ -250,7 +290,7 @@ func (g *Rig) RunCase(in *CaseIn) (*CaseObs, error) {
 	switch in.Kind {
 	case "create":
 		rpl, err := g.rt.CreateContainer(ctx, &api.CreateContainerRequest{Pod: pod, Container: ToContainer(&in.Container, in.Sparse)})
-		obs.Err = classify(err)
+		obs.Err = g.classify(err)
 		if err == nil {
 			obs.Adjust = FromAdjust(rpl.GetAdjust())
 			for _, u := range rpl.GetUpdate() {
@@ -268,7 +308,7 @@ func (g *Rig) RunCase(in *CaseIn) (*CaseObs, error) {
 		req := &api.UpdateContainerRequest{Pod: pod, Container: ToContainer(&in.Container, false),
 			LinuxResources: ToResources(in.Resources, in.Sparse)}
 		rpl, err := g.rt.UpdateContainer(ctx, req)
-		obs.Err = classify(err)
+		obs.Err = g.classify(err)
 		if err == nil {
 			for _, u := range rpl.GetUpdate() {
 				obs.Updates = append(obs.Updates, FromUpdate(u))
@@ -276,7 +316,7 @@ func (g *Rig) RunCase(in *CaseIn) (*CaseObs, error) {
 		}
 	case "stop":
 		rpl, err := g.rt.StopContainer(ctx, &api.StopContainerRequest{Pod: pod, Container: ToContainer(&in.Container, false)})
-		obs.Err = classify(err)
+		obs.Err = g.classify(err)
 		if err == nil {
 			for _, u := range rpl.GetUpdate() {
 				obs.Updates = append(obs.Updates, FromUpdate(u))
